@@ -2,6 +2,7 @@ package props
 
 import (
 	"bytes"
+	"io"
 	"encoding/json"
 	"fmt"
 	"reflect"
@@ -465,6 +466,17 @@ func checkC15(p *pue, c *c15Case, r *vstat.Run) outcome {
 	}
 	if errText(tr.err) != errText(base.err) || !reflect.DeepEqual(tr.ast, base.ast) {
 		return violationf("trace-differs", "%s: the Trace option changes the result: error %q vs %q", desc, errText(tr.err), errText(base.err))
+	}
+	// a nil writer switches tracing off (the "nil unless debugging" idiom): the option is then no option at all
+	{
+		var tn res
+		var w io.Writer
+		if m := guard(func() { tn.ast, tn.err = p.parse("bytes", c.Filename, in, participle.Trace(w)) }); m != "" {
+			return violationf("trace-panic", "%s: the parse panics only when the option Trace(nil) is given: %s", desc, m)
+		}
+		if errText(tn.err) != errText(base.err) || !reflect.DeepEqual(tn.ast, base.ast) {
+			return violationf("trace-differs", "%s: the option Trace(nil) changes the result: error %q vs %q", desc, errText(tn.err), errText(base.err))
+		}
 	}
 	// ... also next to another option, in either order (every option of a call takes effect)
 	{
